@@ -238,11 +238,19 @@ def judge(world, out, rec_ckpts=None):
         if rest and c in begins:
             want = begins[c]["digest"]
             got = rest[0]["digest"]
-            diff = sorted(k for k in want if k != "flow_weights" and want.get(k) != got.get(k))
+            diff = sorted(k for k in want if k not in ("flow_weights", "flow_pool_populated")
+                          and want.get(k) != got.get(k))
+            pool = [r for r in recs if r["k"] == "restored_pool" and r["i"] == 1]
+            if pool and "flow_pool_populated" in want:
+                from sim.digest import h as _h
+
+                if _h(bool(pool[0]["populated"] and pool[0]["n_indices"])) != want["flow_pool_populated"]:
+                    diff.append("flow_pool_populated")
             if diff:
                 # equal to some other complete checkpoint?
                 other = [o for o, b in begins.items()
-                         if all(b["digest"].get(k) == got.get(k) for k in want if k != "flow_weights")]
+                         if all(b["digest"].get(k) == got.get(k) for k in want
+                                if k not in ("flow_weights", "flow_pool_populated"))]
                 v("C11-CRASH-EQ", {"what": "restored state is not the last completed checkpoint",
                                    "kill_site": site, "expected_ordinal": c, "equals_other_ordinal": other,
                                    "fields": diff, "restored_iteration": rest[0]["iteration"],
